@@ -274,6 +274,24 @@ def _field_unit(rng):
     return acc
 
 
+def punctuation_payloads():
+    """contents that use up a translator's choices: every ASCII punctuation character except one (for each one), every prefix of
+    the punctuation in ASCII order (with and without a leading backslash), each followed by a LIKE wildcard and an attack suffix.
+    An escape character / quoting strategy picked by "the first character not in the value" meets each of its alternatives."""
+    import string
+    P = string.punctuation
+    out = [P, P + "%", "\\" + P]
+    for c in P:
+        rest = P.replace(c, "")
+        out += [rest, rest + " OR 1=1 --"]
+    for i in range(1, len(P) + 1):
+        out += [P[:i] + "%", "\\" + P[:i] + "_ OR 1=1 --"]
+    no_quote = P.replace("'", "")
+    for i in range(1, len(no_quote) + 1):
+        out += ["\\" + no_quote[:i] + "%", no_quote[:i] + "_"]
+    return out
+
+
 def payloads(k):
     out = []
     for n in range(k + 1):
@@ -283,7 +301,7 @@ def payloads(k):
     # combining mark, RTL override, astral character, zero-width joiner: alone and next to a quote
     uni = ["\u0301", "\u202e", "\U0001F600", "\u200d", "e\u0301", "\ufeff"]
     uni = uni + [u + "'" for u in uni] + ["'" + u for u in uni] + [u + "%" for u in uni]
-    return out + CLASSICS + LOOKALIKE + TEMPLATES + uni + conf + ["zz" + c + " OR 1=1 --" for c in conf[::3]]
+    return out + CLASSICS + LOOKALIKE + TEMPLATES + uni + conf + ["zz" + c + " OR 1=1 --" for c in conf[::3]] + punctuation_payloads()
 
 
 def run(ctx):
